@@ -9,6 +9,9 @@
   childRenamedIn F-7   `dir_has_children` counts entries that arrived by a pending rename
   createOverDir  F-9   `OpenOptions::open` with create / create_new fails on a directory path
   syncRenameBoth F-11  `sync_dir` updates both entries of every rename it flushes
+  dataKeyResolve F-3   `write_file` / `set_file_len` key the pending op by the name the inode has now
+  fsyncResolve   F-10  `sync_file` flushes the data ops keyed by the name the inode has now
+                       (`resolve_content_path`), not by the name it was called with
 -/
 import TvFs.Model.Fs
 import TvFs.Model.Spec
@@ -21,6 +24,8 @@ structure Fixes where
   childRenamedIn : Bool := false
   createOverDir : Bool := false
   syncRenameBoth : Bool := false
+  fsyncResolve : Bool := false
+  dataKeyResolve : Bool := false
   deriving DecidableEq, Repr, Inhabited
 
 /-! ### existence (F-5): scan with the source's kind looked up at that point of the log -/
@@ -133,6 +138,12 @@ def renameFx (fx : Fixes) (s : Fs) (src dst : Path) : Except Err Fs :=
 
 def syncFileFx (fx : Fixes) (s : Fs) (path : Path) : Except Err Fs :=
   if !(fileExistsFx fx s path) then .error .notfound
+  else if fx.fsyncResolve then
+    let cp := resolvePath s path
+    let toFlush := s.pending.filter (isDataOpOf cp)
+    let toKeep := s.pending.filter (fun op => !(isDataOpOf cp op))
+    let s1 : Fs := if (alookup cp s.files).isSome then s else { s with files := s.files ++ [(cp, [])] }
+    .ok (toFlush.foldl applyOp { s1 with pending := toKeep })
   else
     let toFlush := s.pending.filter (isDataOpOf path)
     let toKeep := s.pending.filter (fun op => !(isDataOpOf path op))
@@ -168,14 +179,19 @@ def openCreateFx (fx : Fixes) (s : Fs) (p : Path) (fl : Flags) : Except Err Fs :
 def openFsFx (fx : Fixes) (s : Fs) (p : Path) (fl : Flags) : Except Err Fs :=
   match openCreateFx fx s p fl with
   | .error e => .error e
-  | .ok s1 => .ok (if fl.t && fl.w then { s1 with pending := s1.pending ++ [.setLen p 0] } else s1)
+  | .ok s1 =>
+    .ok (if fl.t && fl.w then
+      { s1 with pending := s1.pending ++ [.setLen (if fx.dataKeyResolve then resolvePath s1 p else p) 0] }
+    else s1)
 
 def writeFsFx (fx : Fixes) (s : Fs) (p : Path) (off : Nat) (d : Bytes) (coin : Bool) : Fs :=
-  let s1 := if d.isEmpty then s else { s with pending := s.pending ++ [.write p off d] }
+  let key := if fx.dataKeyResolve then resolvePath s p else p
+  let s1 := if d.isEmpty then s else { s with pending := s.pending ++ [.write key off d] }
   if coin then (match syncFileFx fx s1 p with | .ok s2 => s2 | .error _ => s1) else s1
 
 def setLenFsFx (fx : Fixes) (s : Fs) (p : Path) (n : Nat) (coin : Bool) : Fs :=
-  let s1 := { s with pending := s.pending ++ [.setLen p n] }
+  let key := if fx.dataKeyResolve then resolvePath s p else p
+  let s1 := { s with pending := s.pending ++ [.setLen key n] }
   if coin then (match syncFileFx fx s1 p with | .ok s2 => s2 | .error _ => s1) else s1
 
 def viewOfFx (fx : Fixes) (s : Fs) (p : Path) : View :=
